@@ -24,12 +24,13 @@ import (
 )
 
 // Crash-restarted replicas. One replica of a long chain runs on a database that records every
-// durable unit it writes (a Put, a Delete, or the atomic Write of a batch; netsim.RecDB). When the
-// chain is finished, the harness takes database images "as of unit p" - the process died after the
-// p-th unit reached the disk and before the next one did -, opens a node on each image exactly as a
+// durable unit it writes (a Put, a Delete, or the atomic Write of a batch; netsim.RecDB). After
+// chosen blocks the harness takes a database image "as of unit p" - the process died after the
+// p-th unit reached the disk and before the next one did -, opens a node on the image exactly as a
 // node starts (NewBlockChain with the replica's cache configuration, snapshot on, generation in the
 // background; tx pool, evidence pool, state store, BlockOperations, BlockExecutor), and feeds it
-// the blocks above the head it came up with, taken from the chain the other replicas executed.
+// the blocks above the head it came up with, taken from the chain the other replicas executed
+// (in a goroutine of its own, beside the chain that goes on; it waits for blocks not yet built).
 // A crash may lose the most recent blocks (tries and snapshot layers live in memory: NewBlockChain
 // rewinds the head to a block whose state is on disk); that is fine. What the property forbids is
 // that re-executing a block on the restarted database gives another result than on the replicas
@@ -43,34 +44,47 @@ import (
 
 type crashPlan struct {
 	Replica   int    `json:"replica"`
-	Variant   string `json:"configuration"`
+	Variant   string `json:"recorded_replica"`
 	InMerge   int    `json:"images_inside_multi_batch_disk_layer_merges"`
-	Arbitrary int    `json:"images_at_arbitrary_units"`
+	Arbitrary []int  `json:"images_at_an_arbitrary_unit_of_heights"`
 	After     int    `json:"blocks_applied_beyond_the_crash"`
 	Seed      int64  `json:"seed"`
 }
 
-// crashCfg: the recorded replica runs what backend.go passes for the default flags (snapshot generated in the
-// background), in one of two variants: with a trie timeout so short that beyond block 128 the trie of block h-128 is
-// committed at every block (Config.TrieTimeout in the node's TOML file; a crash then rewinds the head by about 128
-// blocks, onto or next to the block the snapshot's disk layer stands at), or literally (tries reach the disk only at a
-// clean stop: a crash rewinds the head to the last clean stop or to the genesis, below the disk layer, and the node
-// comes up in snapshot recovery mode).
+const (
+	crashLongRunning = "the-long-running-replica"       // replica 0 itself is recorded: nothing but snapshot merges ever reaches its disk, a crash rewinds the head to the genesis
+	crashEarlyStop   = "node-defaults+early-clean-stop" // a fifth replica, stopped cleanly once in the first blocks: a crash rewinds the head to that stop
+	crashTrieTimeout = "node-defaults+trie-timeout-1ns" // a fifth replica that commits the trie of block h-128 at every block beyond 128 (Config.TrieTimeout in the node's TOML file)
+)
+
+// crashCfg: the fifth replica runs what backend.go passes for the default flags (snapshot generated in the background).
 func crashCfg(variant string) repCfg {
 	c := &blockchain.CacheConfig{TrieCleanLimit: 154, TrieDirtyLimit: 256, TrieTimeLimit: 60 * time.Minute, SnapshotLimit: 102}
-	if variant == "node-defaults+trie-timeout-1ns" {
+	if variant == crashTrieTimeout {
 		c.TrieTimeLimit = time.Nanosecond
 	}
 	return repCfg{Name: variant, Cache: c, Snap: true}
 }
 
-func drawCrashPlan(r *rand.Rand, quick bool, i int, replica int) *crashPlan {
-	p := &crashPlan{Replica: replica, Variant: "node-defaults+trie-timeout-1ns", InMerge: 2, Arbitrary: 2, After: 16, Seed: r.Int63()}
+// drawCrashPlan: which replica is recorded and where images are taken. Even chains record replica 0, odd chains a
+// fifth replica with an early clean stop (thorough: every fourth chain one with a short trie timeout instead).
+func drawCrashPlan(r *rand.Rand, quick bool, i, heights, nReplicas int) *crashPlan {
+	p := &crashPlan{Replica: 0, Variant: crashLongRunning, InMerge: 2, After: 16, Seed: r.Int63()}
 	if i%2 == 1 {
-		p.Variant = "node-defaults"
+		p.Replica, p.Variant = nReplicas, crashEarlyStop
+		if !quick && i%4 == 3 {
+			p.Variant = crashTrieTimeout
+		}
+	}
+	// arbitrary units: one in the first 40 blocks, one beyond block 128 (replaced by the clean stop where there is one; quick: not on
+	// the long-running replica, where it means re-executing some 150 blocks from the genesis once more), thorough: two more anywhere
+	p.Arbitrary = []int{2 + r.Intn(39), 129 + r.Intn(16)}
+	if quick && p.Variant == crashLongRunning {
+		p.Arbitrary[1] = 0
 	}
 	if !quick {
-		p.InMerge, p.Arbitrary, p.After = 3, 4, 40
+		p.InMerge, p.After = 3, 40
+		p.Arbitrary = append(p.Arbitrary, 2+r.Intn(heights-1), 2+r.Intn(heights-1))
 	}
 	return p
 }
@@ -87,21 +101,77 @@ type crashRef struct {
 
 type crashTracker struct {
 	plan       *crashPlan
-	cfg        repCfg
+	cfg        repCfg // what the node is restarted with (the recorded replica's configuration; generation in the background)
+	gen        *genesis.Genesis
+	nVals      int
 	log        *netsim.DurLog
-	start, end []int      // by height: units in the log before / after the block was applied on the recorded replica
-	refs       []crashRef // by height (0: genesis)
-	stops      []int      // heights before which the recorded replica was stopped cleanly and reopened
+	rng        *rand.Rand
+	start, end []int // by height: units in the log before / after the block was applied on the recorded replica
+	stops      []int // heights before which the recorded replica was stopped cleanly and reopened
+	heightOf   map[common.Hash]int
+	diskAt     int // height the recorded replica's disk layer stands at according to the log (-1: unknown root)
+	merges     []diskMerge
+	inMerge    int // images taken inside merges so far
+
+	mu      sync.Mutex
+	cond    *sync.Cond
+	refs    []crashRef // by height (0: genesis)
+	closed  bool       // the chain is finished or abandoned: no more blocks will come
+	wg      sync.WaitGroup
+	results []*crashResult
 }
 
-func newCrashTracker(plan *crashPlan, cfg repCfg, log *netsim.DurLog, ch0 *chainkit.Chain) *crashTracker {
-	ct := &crashTracker{plan: plan, cfg: cfg, log: log, start: []int{0}, end: []int{log.Len()}}
+func newCrashTracker(plan *crashPlan, cfg repCfg, gen *genesis.Genesis, nVals int, log *netsim.DurLog, ch0 *chainkit.Chain) *crashTracker {
+	ct := &crashTracker{plan: plan, gen: gen, nVals: nVals, log: log, start: []int{0}, end: []int{log.Len()}, heightOf: map[common.Hash]int{ch0.State.AppHash: 0, rawdb.ReadAppHash(ch0.N.DB, 0): 0}, diskAt: -1,
+		rng: rand.New(rand.NewSource(plan.Seed))}
+	ct.cond = sync.NewCond(&ct.mu)
+	// the restarted node: same allowances, the snapshot generated in the background as backend.go has it
+	cc := blockchain.CacheConfig{TrieCleanLimit: 256, TrieDirtyLimit: 256, TrieTimeLimit: 5 * time.Minute, SnapshotLimit: 256}
+	if cfg.Cache != nil {
+		cc = *cfg.Cache
+	}
+	cc.SnapshotWait = false
+	ct.cfg = repCfg{Name: cfg.Name, Cache: &cc, Snap: true}
 	ct.refs = append(ct.refs, crashRef{appHash: ch0.State.AppHash, st: ch0.State.Copy()})
+	for _, e := range log.Snapshot() { // the genesis snapshot
+		if root, ok := rootPut(e); ok {
+			ct.diskAt = ct.look(root)
+		}
+	}
 	return ct
+}
+
+func (ct *crashTracker) look(root common.Hash) int {
+	if h, ok := ct.heightOf[root]; ok {
+		return h
+	}
+	return -1
 }
 
 func (ct *crashTracker) begin(h int) { ct.start = append(ct.start, ct.log.Len()) }
 func (ct *crashTracker) done(h int)  { ct.end = append(ct.end, ct.log.Len()) }
+
+// waitRef returns block h of the chain and its results, waiting until the chain has come that far.
+func (ct *crashTracker) waitRef(h int) (crashRef, bool) {
+	ct.mu.Lock()
+	defer ct.mu.Unlock()
+	for len(ct.refs) <= h && !ct.closed {
+		ct.cond.Wait()
+	}
+	if len(ct.refs) <= h {
+		return crashRef{}, false
+	}
+	return ct.refs[h], true
+}
+
+// close: no more blocks will come; waits for the restarted nodes.
+func (ct *crashTracker) close() {
+	ct.mu.Lock()
+	ct.closed = true
+	ct.cond.Broadcast()
+	ct.mu.Unlock()
+	ct.wg.Wait()
+}
 
 // ---------------------------------------------------------------- the unit log
 
@@ -148,51 +218,34 @@ func snapOnly(e netsim.DurEv) (entries, size int, ok bool) {
 	return entries, size, true
 }
 
-func (ct *crashTracker) findMerges(evs []netsim.DurEv) []diskMerge {
-	heightOf := map[common.Hash]int{}
-	for h, rf := range ct.refs {
-		heightOf[rf.appHash] = h
-	}
-	look := func(root common.Hash) int {
-		if h, ok := heightOf[root]; ok {
-			return h
-		}
-		return -1
-	}
+// mergesOf finds the disk-layer merges among the units written while block h was applied.
+func (ct *crashTracker) mergesOf(evs []netsim.DurEv, h int) []diskMerge {
 	var out []diskMerge
-	last := -1
-	for u := 0; u < ct.start[1] && u < len(evs); u++ { // the genesis snapshot
-		if root, ok := rootPut(evs[u]); ok {
-			last = look(root)
+	for u := ct.start[h]; u < ct.end[h] && u < len(evs); u++ {
+		root, ok := rootPut(evs[u])
+		if !ok {
+			continue
 		}
-	}
-	for h := 1; h < len(ct.end); h++ {
-		for u := ct.start[h]; u < ct.end[h] && u < len(evs); u++ {
-			root, ok := rootPut(evs[u])
-			if !ok {
-				continue
-			}
-			n, sz, only := snapOnly(evs[u])
-			if !only {
-				continue
-			}
-			m := diskMerge{Block: h, Units: []int{u}, Entries: n, KiB: sz, From: last, To: look(root)}
-			for v := u - 1; v >= ct.start[h]; v-- {
-				n, sz, only := snapOnly(evs[v])
-				if !only || n == 0 {
-					break
-				}
-				if _, again := rootPut(evs[v]); again {
-					break
-				}
-				m.Units = append([]int{v}, m.Units...)
-				m.Entries += n
-				m.KiB += sz
-			}
-			m.KiB /= 1024
-			last = m.To
-			out = append(out, m)
+		n, sz, only := snapOnly(evs[u])
+		if !only {
+			continue
 		}
+		m := diskMerge{Block: h, Units: []int{u}, Entries: n, KiB: sz, From: ct.diskAt, To: ct.look(root)}
+		for v := u - 1; v >= ct.start[h]; v-- {
+			n, sz, only := snapOnly(evs[v])
+			if !only || n == 0 {
+				break
+			}
+			if _, again := rootPut(evs[v]); again {
+				break
+			}
+			m.Units = append([]int{v}, m.Units...)
+			m.Entries += n
+			m.KiB += sz
+		}
+		m.KiB /= 1024
+		ct.diskAt = m.To
+		out = append(out, m)
 	}
 	return out
 }
@@ -229,80 +282,82 @@ func (ct *crashTracker) point(evs []netsim.DurEv, p int, kind string) crashPoint
 	return cp
 }
 
-func (ct *crashTracker) choose(r *rand.Rand, evs []netsim.DurEv, merges []diskMerge) []crashPoint {
-	var pts []crashPoint
-	taken := map[int]bool{}
-	add := func(cp crashPoint) {
-		if !taken[cp.P] {
-			taken[cp.P] = true
-			pts = append(pts, cp)
-		}
+func (cp crashPoint) where() string {
+	s := "between blocks"
+	if cp.Block > 0 {
+		s = fmt.Sprintf("while applying block %d", cp.Block)
 	}
-	// inside merges written in several batches: after the first batch of the earliest such merge, after the last but one
-	// batch of another, then anywhere inside any. (Where the literal node defaults are run with an early clean stop, the
-	// merges whose old disk layer lies above that stop come first: below it the head is rewound to the genesis.)
-	var multi []int
-	for i, m := range merges {
-		if len(m.Units) > 1 {
-			multi = append(multi, i)
-		}
+	if cp.Merge != nil {
+		s += fmt.Sprintf(", after batch %d of %d of the merge of the snapshot disk layer from height %d to %d", cp.Batch, len(cp.Merge.Units), cp.Merge.From, cp.Merge.To)
 	}
-	if len(ct.stops) > 0 {
-		sort.SliceStable(multi, func(a, b int) bool {
-			return (merges[multi[a]].From >= ct.stops[0]) && !(merges[multi[b]].From >= ct.stops[0])
-		})
+	return fmt.Sprintf("%s, after %d durable units, last written %q, next %q", s, cp.P, cp.Prev, cp.Next)
+}
+
+// afterHeight is called when block h was executed and compared on all replicas: the block joins the chain the restarted
+// nodes are fed from, and the images planned for this block are taken.
+func (ct *crashTracker) afterHeight(run *core.Run, h int, rf crashRef) {
+	ct.mu.Lock()
+	ct.refs = append(ct.refs, rf)
+	ct.cond.Broadcast()
+	ct.mu.Unlock()
+	ct.heightOf[rf.appHash] = h
+	if h >= len(ct.end) {
+		return
 	}
-	for k := 0; k < ct.plan.InMerge && len(multi) > 0; k++ {
-		mi := multi[0]
-		if k > 0 {
-			mi = multi[(1+r.Intn(len(multi)))%len(multi)]
-		}
-		m := merges[mi]
-		b := 1 // batches of the merge that reached the disk
-		switch {
-		case k == 1:
-			b = len(m.Units) - 1
-		case k > 1:
-			b = 1 + r.Intn(len(m.Units)-1)
-		}
-		cp := ct.point(evs, m.Units[b-1]+1, "inside-multi-batch-disk-layer-merge")
-		cp.Merge, cp.Batch = &merges[mi], b
-		add(cp)
+	evs := ct.log.Snapshot()
+	launch := func(cp crashPoint) {
+		ct.wg.Add(1)
+		go func() {
+			defer ct.wg.Done()
+			res := ct.restartAt(evs, cp)
+			ct.mu.Lock()
+			ct.results = append(ct.results, res)
+			ct.mu.Unlock()
+		}()
 	}
-	// arbitrary units: one in the first 40 blocks, one around a clean stop of the recorded replica (in the middle of the
-	// shutdown, too) or anywhere beyond block 128, the rest anywhere
-	n := len(ct.end) - 1
-	span := func(lo, hi int) (int, int) {
-		if lo < 1 {
-			lo = 1
-		}
-		if hi > n {
-			hi = n
-		}
-		if lo > hi {
-			lo = hi
-		}
-		return ct.start[lo] + 1, ct.end[hi]
-	}
-	for k := 0; k < ct.plan.Arbitrary && n >= 2; k++ {
-		var lo, hi int
-		switch {
-		case k == 0:
-			lo, hi = span(2, 40)
-		case k == 1 && len(ct.stops) > 0:
-			s := ct.stops[r.Intn(len(ct.stops))]
-			lo, hi = span(s-1, s+3)
-		case k == 1:
-			lo, hi = span(129, n)
-		default:
-			lo, hi = span(2, n)
-		}
-		if hi <= lo {
+	for _, m := range ct.mergesOf(evs, h) {
+		m := m
+		ct.merges = append(ct.merges, m)
+		run.Count("disk_layer_merges_in_the_unit_log", 1)
+		run.Max("disk_layer_merge_batches_max", int64(len(m.Units)))
+		run.Max("disk_layer_merge_values_max_kib", int64(m.KiB))
+		if len(m.Units) < 2 {
 			continue
 		}
-		add(ct.point(evs, lo+r.Intn(hi-lo), "arbitrary-unit"))
+		run.Count("disk_layer_merges_written_in_several_batches", 1)
+		// (below an early clean stop the restarting node rewinds through blocks with state and dies in rawdb.DeleteBlockPart:
+		// the merges whose old disk layer stands at or above that stop are taken)
+		if ct.inMerge >= ct.plan.InMerge || (len(ct.stops) > 0 && m.From < ct.stops[0]-1) {
+			continue
+		}
+		b := 1 // batches of the merge that reached the disk: the first; all but the last; any
+		switch {
+		case ct.inMerge == 1:
+			b = len(m.Units) - 1
+		case ct.inMerge > 1:
+			b = 1 + ct.rng.Intn(len(m.Units)-1)
+		}
+		ct.inMerge++
+		cp := ct.point(evs, m.Units[b-1]+1, "inside-multi-batch-disk-layer-merge")
+		cp.Merge, cp.Batch = &m, b
+		launch(cp)
 	}
-	return pts
+	for k, t := range ct.plan.Arbitrary {
+		if k == 1 && len(ct.stops) > 0 {
+			t = ct.stops[0]
+		}
+		if t != h {
+			continue
+		}
+		// a unit written while block h was applied, or (after a clean stop) while the node shut down and came up again
+		lo, hi := ct.start[h]+1, ct.end[h]
+		if k == 1 && len(ct.stops) > 0 && ct.start[h] > ct.end[h-1]+1 {
+			lo, hi = ct.end[h-1]+1, ct.start[h]+1
+		}
+		if hi > lo {
+			launch(ct.point(evs, lo+ct.rng.Intn(hi-lo), "arbitrary-unit"))
+		}
+	}
 }
 
 // ---------------------------------------------------------------- restart from an image
@@ -332,7 +387,7 @@ func errText(s string) string {
 }
 
 // restartAt opens a node on the image after p units and applies the chain's blocks above the head it comes up with.
-func (ct *crashTracker) restartAt(evs []netsim.DurEv, cp crashPoint, gen *genesis.Genesis, nVals int) (res *crashResult) {
+func (ct *crashTracker) restartAt(evs []netsim.DurEv, cp crashPoint) (res *crashResult) {
 	res = &crashResult{Point: cp}
 	img, _ := netsim.ImageAt(evs, cp.P)
 	label := fmt.Sprintf("%s->crashed-after-unit-%d-reopened", ct.cfg.Name, cp.P)
@@ -343,7 +398,7 @@ func (ct *crashTracker) restartAt(evs []netsim.DurEv, cp crashPoint, gen *genesi
 				res.StartErr = errText(fmt.Sprintf("panic in %s: %v", core.PanicKey(string(debug.Stack())), e))
 			}
 		}()
-		c, err := chainkit.New(gen, nVals, img, ct.cfg.Cache, label)
+		c, err := chainkit.New(ct.gen, ct.nVals, img, ct.cfg.Cache, label)
 		if err != nil {
 			res.StartErr = errText(err.Error())
 			return
@@ -360,27 +415,27 @@ func (ct *crashTracker) restartAt(evs []netsim.DurEv, cp crashPoint, gen *genesi
 		res.Recovery = true
 	}
 	res.DiskKept = rawdb.ReadSnapshotRoot(ch.N.DB) != (common.Hash{}) && !generatorRunning(ch)
-	if res.Head >= len(ct.refs) {
-		res.Key, res.What = "head-above-the-chain:crash-restarted-database", fmt.Sprintf("the node restarted on the image comes up with head %d, the chain has %d blocks", res.Head, len(ct.refs)-1)
-		return res
-	}
 	// the consensus state the blocks are applied on: the one every never-crashed replica held at that height (the stored
 	// one may be ahead of the chain head after a crash; how a node gets back from there is C05's subject)
-	ch.State = ct.refs[res.Head].st.Copy()
+	rf0, ok := ct.waitRef(res.Head)
+	if !ok {
+		return res
+	}
+	ch.State = rf0.st.Copy()
 	lastLost := cp.Last
 	if cp.Block > lastLost {
-		lastLost = cp.Block // (the block it died in may have been executed by the others)
+		lastLost = cp.Block // (the block it died in was executed by the others)
 	}
 	to := lastLost + ct.plan.After
 	if res.Head > lastLost {
 		to = res.Head + ct.plan.After
 	}
-	if to > len(ct.refs)-1 {
-		to = len(ct.refs) - 1
-	}
 	pair := fmt.Sprintf("replicas that never crashed vs %s (died %s, came up with head %d)", label, cp.where(), res.Head)
 	for h := res.Head + 1; h <= to; h++ {
-		rf := ct.refs[h]
+		rf, ok := ct.waitRef(h)
+		if !ok {
+			break // the chain ended
+		}
 		if generatorRunning(ch) {
 			res.GenRunning++
 		}
@@ -428,44 +483,26 @@ func (ct *crashTracker) restartAt(evs []netsim.DurEv, cp crashPoint, gen *genesi
 	return res
 }
 
-func (cp crashPoint) where() string {
-	s := "between blocks"
-	if cp.Block > 0 {
-		s = fmt.Sprintf("while applying block %d", cp.Block)
-	}
-	if cp.Merge != nil {
-		s += fmt.Sprintf(", after batch %d of %d of the merge of the snapshot disk layer from height %d to %d", cp.Batch, len(cp.Merge.Units), cp.Merge.From, cp.Merge.To)
-	}
-	return fmt.Sprintf("%s, after %d durable units, last written %q, next %q", s, cp.P, cp.Prev, cp.Next)
+// startRefusalIsViolation: set by ChainCrashCase (C05's chain-crash group): a node that cannot be started on a crash image
+// is a violation there; in C06's own runs it is counted only (start-up after a crash is C05's subject).
+var startRefusalIsViolation bool
+
+// ChainCrashCase is C05's view of the long chains with a crash-restart replica: the same chains, crash images and
+// restarts; a database the node refuses to start on is a violation, and so is a restarted node that does not continue
+// like the replicas that never crashed (the keys of the comparison are the ones C06 uses).
+func ChainCrashCase(c *core.Case) {
+	startRefusalIsViolation = true
+	longCase(c)
 }
 
-// run takes the crash images of a finished chain. It returns false if a violation was reported.
-func (ct *crashTracker) run(cs *core.Case, gen *genesis.Genesis, nVals int, wit func(map[string]interface{}) map[string]interface{}) bool {
+// finish waits for the restarted nodes and reports. It returns false if a violation was reported.
+func (ct *crashTracker) finish(cs *core.Case, wit func(map[string]interface{}) map[string]interface{}) bool {
 	run := cs.Run
-	evs := ct.log.Snapshot()
-	run.Count("crash_replica_durable_units_recorded", len(evs))
-	merges := ct.findMerges(evs)
-	for _, m := range merges {
-		run.Count("disk_layer_merges_in_the_unit_log", 1)
-		if len(m.Units) > 1 {
-			run.Count("disk_layer_merges_written_in_several_batches", 1)
-		}
-		run.Max("disk_layer_merge_batches_max", int64(len(m.Units)))
-		run.Max("disk_layer_merge_values_max_kib", int64(m.KiB))
-	}
-	pts := ct.choose(rand.New(rand.NewSource(ct.plan.Seed)), evs, merges)
-	results := make([]*crashResult, len(pts))
-	var wg sync.WaitGroup
-	for k := range pts {
-		wg.Add(1)
-		go func(k int) {
-			defer wg.Done()
-			results[k] = ct.restartAt(evs, pts[k], gen, nVals)
-		}(k)
-	}
-	wg.Wait()
+	ct.close()
+	run.Count("crash_replica_durable_units_recorded", ct.log.Len())
 	ok := true
-	for _, res := range results {
+	sort.Slice(ct.results, func(a, b int) bool { return ct.results[a].Point.P < ct.results[b].Point.P })
+	for _, res := range ct.results {
 		run.Count("crash_images_taken", 1)
 		run.Count("crash_images_taken:"+res.Point.Kind, 1)
 		if res.Point.Block > 0 {
@@ -475,10 +512,15 @@ func (ct *crashTracker) run(cs *core.Case, gen *genesis.Genesis, nVals int, wit 
 			// start-up after a crash is C05's subject: counted, not judged here
 			run.Count("crash_images_the_node_refuses_to_start_on", 1)
 			run.Count("crash_images_the_node_refuses_to_start_on: "+res.StartErr, 1)
+			if startRefusalIsViolation && ok {
+				ok = false
+				cs.Violation("restart:chain-refuses-to-start-on-crash-image:"+res.StartErr, fmt.Sprintf("a node (snapshots on, %s) whose process died %s cannot be started on the surviving database: %s", ct.plan.Variant, res.Point.where(), res.StartErr),
+					wit(map[string]interface{}{"crash_restart": res, "clean_stops_before_heights": ct.stops}))
+			}
 			continue
 		}
 		run.Count("restarts_from_crash_images", 1)
-		run.Count("restarts_from_crash_images:"+ct.cfg.Name, 1)
+		run.Count("restarts_from_crash_images:"+ct.plan.Variant, 1)
 		if res.Point.Merge != nil {
 			run.Count("restarts_from_images_taken_inside_a_multi_batch_disk_layer_merge", 1)
 		}
@@ -507,12 +549,12 @@ func (ct *crashTracker) run(cs *core.Case, gen *genesis.Genesis, nVals int, wit 
 		}
 		if res.Key != "" && ok {
 			ok = false
-			cs.Violation(res.Key, res.What, wit(map[string]interface{}{"crash_restart": res, "disk_layer_merges_of_the_recorded_replica": merges,
+			cs.Violation(res.Key, res.What, wit(map[string]interface{}{"crash_restart": res, "disk_layer_merges_of_the_recorded_replica": ct.merges,
 				"note": "the image is the recorded replica's database after the first durable_units_on_disk units it wrote; which entries a batch of a disk-layer merge holds follows Go's map order, so a replay may differ in the values but not in the situation"}))
 		}
 	}
 	if cs.I < 2 {
-		run.Sample(map[string]interface{}{"group": cs.Group, "case": cs.I, "crash_restart_replica": ct.plan, "clean_stops_before_heights": ct.stops, "disk_layer_merges_of_the_recorded_replica": merges, "crash_restarts": results})
+		run.Sample(map[string]interface{}{"group": cs.Group, "case": cs.I, "crash_restart_replica": ct.plan, "clean_stops_before_heights": ct.stops, "disk_layer_merges_of_the_recorded_replica": ct.merges, "crash_restarts": ct.results})
 	}
 	return ok
 }
